@@ -223,7 +223,12 @@ func (txn *writeTxnState) addDeleteTracker(meta TableMeta, trackerName string, d
 		return tableError(meta.Name(), ErrTableNotLockedForWriting)
 	}
 
-	_, _, updated := table.deleteTrackers.Insert([]byte(trackerName), dt)
+	// Insert without notifying: the watch channels of the committed tree must
+	// not be closed as this transaction may still be aborted (and closing them
+	// again from a later transaction would panic).
+	dtTxn := table.deleteTrackers.Txn()
+	dtTxn.Insert([]byte(trackerName), dt)
+	updated := dtTxn.Commit()
 	table.deleteTrackers = &updated
 	txn.db.metrics.DeleteTrackerCount(meta.Name(), table.deleteTrackers.Len())
 
